@@ -288,6 +288,7 @@ class World:
         for e in self.L:
             F.know(c, st["cl"], e)
             F.know(c, st["cs"], z3.Select(st["lsid"], e))
+        F.know(c, st["cs"], st["cur"][1])
 
     def assume_wf(self, st, extra_S=(), extra_L=(), entry_of=None):
         """WF(base) at every known term (call right before the postconditions: terms introduced during the run included)"""
@@ -472,8 +473,396 @@ sys.exit(1 if bad else 0)
 '''
 
 
+
+# =================================================================================== shared post-conditions of shrinking mutators
+def shrink_post(h: H, W: World, st0, st1, keeps, label, calls=None):
+    """post-state st1 was obtained from st0 by dropping snapshots (keeps(v) = v must survive): WF(st1), exactly the snapshots
+    selected by `keeps` survive, order unchanged, nothing but parent links is rewritten, the current snapshot survives"""
+    sel = z3.Select
+    v, u = W.S[0], W.S[1]
+    h.ensure(f"{label}:exactly-the-selected-snapshots-survive", sel(st1["smem"], v) == z3.And(sel(st0["smem"], v), keeps(v)))
+    h.ensure(f"{label}:survivors-stay-in-commit-order",
+             z3.Implies(z3.And(sel(st1["smem"], v), sel(st1["smem"], u)), (sel(st1["spos"], v) < sel(st1["spos"], u)) == (sel(st0["spos"], v) < sel(st0["spos"], u))))
+    h.ensure(f"{label}:timestamps-and-sequence-numbers-of-survivors-untouched",
+             z3.Implies(sel(st1["smem"], v), z3.And(sel(st1["ts"], v) == sel(st0["ts"], v), sel(st1["seq"], v) == sel(st0["seq"], v))))
+    e = W.L[0]
+    h.ensure(f"{label}:log-keeps-exactly-the-entries-of-survivors-in-order",
+             z3.And(sel(st1["lmem"], e) == z3.And(sel(st0["lmem"], e), sel(st1["smem"], sel(st0["lsid"], e))),
+                    z3.Implies(sel(st1["lmem"], e), sel(st1["lsid"], e) == sel(st0["lsid"], e))))
+    h.ensure(f"{label}:last_sequence_number-never-decreases", st1["lsn"] >= st0["lsn"])
+    W.ensure_wf(st1, W.entry0, prefix=f"{label}/")
+
+
+def props_with_retention(md: MD):
+    return md
+
+
+# =================================================================================== _apply_retention
+def h_apply_retention(h: H):
+    c = h.ctx
+    install(h)
+    W = World(h)
+    md = MD(h, "metadata")
+    st0 = state_of(c, md.obj)
+    W.know(st0)
+    calls = []
+    h.reg.contracts[f"{SM}:repoint_parents_to_surviving_ancestors"] = repoint_contract(W, calls)
+    mm = h.obj("MetadataManager")
+    sm = h.obj("SnapshotManager", metadata_manager=mm)
+    W.assume_wf(st0)
+    F.know(c, st0["cs"], md.cur.val.z)
+    out, val = h.run(f"{SM}:SnapshotManager._apply_retention", [sm, md.obj])
+    W.assume_wf(st0)
+    h.ensure("RETENTION:never-raises", out == "ok", detail=repr(val) if out != "ok" else "")
+    if out != "ok":
+        return
+    st1 = state_of(c, md.obj)
+    sel = z3.Select
+    cn, cv = st0["cur"]
+    h.ensure("RETENTION:the-current-snapshot-is-never-dropped", z3.Implies(z3.Not(cn), sel(st1["smem"], cv)))
+    h.ensure("RETENTION:current-pointer-and-last_sequence_number-untouched",
+             z3.And(st1["cur"][0] == cn, z3.Implies(z3.Not(cn), st1["cur"][1] == cv), st1["lsn"] == st0["lsn"]))
+    v = W.S[0]
+    h.ensure("RETENTION:only-drops(never-invents)-snapshots", z3.Implies(sel(st1["smem"], v), sel(st0["smem"], v)))
+    if not calls:
+        h.ensure("RETENTION:no-pruning=>metadata-unchanged", z3.And(sel(st1["smem"], v) == sel(st0["smem"], v), st1["pn"] == st0["pn"], st1["pv"] == st0["pv"]))
+        return
+    h.ensure("RETENTION:pruning-only-when-the-property-is-set", z3.Not(md.ret.isnone))
+    kept_sel = calls[0]["kmem"]
+    h.ensure("RETENTION:repoint-called-with-(all-snapshots,survivors)", z3.And(sel(calls[0]["amem"], v) == sel(st0["smem"], v), sel(kept_sel, v) == sel(st1["smem"], v)))
+    shrink_post(h, W, st0, st1, lambda x: sel(st1["smem"], x), "RETENTION")
+
+
+# =================================================================================== expire mutator
+def h_expire_mutator(h: H):
+    c = h.ctx
+    install(h)
+    W = World(h)
+    md = MD(h, "metadata")
+    st0 = state_of(c, md.obj)
+    W.know(st0)
+    calls = []
+    h.reg.contracts[f"{SM}:repoint_parents_to_surviving_ancestors"] = repoint_contract(W, calls)
+    cutoff = h.int("cutoff_ms")
+    W.assume_wf(st0)
+    out, mut = h.run(f"{TX}:Transaction._make_expire_mutator", [cutoff])
+    if out != "ok":
+        h.fail("EXPIRE:_make_expire_mutator-never-raises", detail=repr(mut))
+        return
+    out, val = h.call(mut, [md.obj])
+    W.assume_wf(st0)
+    h.ensure("EXPIRE:never-raises", out == "ok", detail=repr(val) if out != "ok" else "")
+    if out != "ok":
+        return
+    st1 = state_of(c, md.obj)
+    sel = z3.Select
+    cn, cv = st0["cur"]
+    h.ensure("EXPIRE:the-current-snapshot-is-never-expired", z3.Implies(z3.Not(cn), sel(st1["smem"], cv)))
+    h.ensure("EXPIRE:current-pointer-and-last_sequence_number-untouched",
+             z3.And(st1["cur"][0] == cn, z3.Implies(z3.Not(cn), st1["cur"][1] == cv), st1["lsn"] == st0["lsn"]))
+    h.ensure("EXPIRE:repoint-called-once-with-(all,kept)", len(calls) == 1)
+    if len(calls) != 1:
+        return
+    keeps = lambda x: z3.Or(sel(st0["ts"], x) >= cutoff.z, z3.And(z3.Not(cn), x == cv))
+    shrink_post(h, W, st0, st1, keeps, "EXPIRE")
+
+
+# =================================================================================== delete_snapshot
+def h_delete_snapshot_wf(h: H):
+    c = h.ctx
+    install(h)
+    W = World(h)
+    md = MD(h, "base")
+    st0 = state_of(c, md.obj)
+    W.know(st0)
+    calls, commits, mr = [], [], []
+    h.reg.contracts[f"{SM}:repoint_parents_to_surviving_ancestors"] = repoint_contract(W, calls)
+    mm = h.obj("MetadataManager")
+    sm = h.obj("SnapshotManager", metadata_manager=mm)
+    target = h.int("snapshot_id_to_delete")
+    F.know(c, st0["cs"], target.z)
+    F.know(c, st0["cl"], W.entry0(target.z))
+    h.reg.contracts[f"{MM}:MetadataManager.refresh"] = lambda I, fv, a, k: md.obj
+
+    def commit(I, fv, args, kwargs):
+        commits.append((args[1], args[2]))
+        return None
+    h.reg.contracts[f"{MM}:MetadataManager.commit"] = commit
+
+    def most_recent(I, fv, args, kwargs):
+        """contract proved by unit REPOINT-CUR: None iff nothing retained, else the retained snapshot committed last"""
+        m = args[-1]
+        st = state_of(I.ctx, m)
+        r = SOpt(I.ctx.fresh_bool("most_recent_none"), SInt(I.ctx.fresh_int("most_recent")))
+        F.know(I.ctx, st["cs"], r.val.z)
+        for t in list(F._terms(I.ctx, "Snapshot")):
+            I.ctx.assume(z3.Implies(z3.Select(st["smem"], t), z3.And(z3.Not(r.isnone), z3.Select(st["spos"], t) <= z3.Select(st["spos"], r.val.z))))
+        I.ctx.assume(z3.Or(r.isnone, z3.Select(st["smem"], r.val.z)))
+        mr.append((st, r))
+        return r
+    h.reg.contracts[f"{SM}:SnapshotManager._most_recent_snapshot_id"] = most_recent
+
+    def inv(I, env, it):
+        ok, x = env.lookup("snapshot_to_remove")
+        return [("DELETE:inv:target-not-among-the-visited", z3.Not(z3.Select(it["done"], target.z))),
+                ("DELETE:inv:nothing-selected-yet", z3.BoolVal(True) if x is None else (x.isnone if isinstance(x, SOpt) else z3.BoolVal(False)))]
+
+    def havoc(I, env, it):
+        env.vars["snapshot_to_remove"] = None
+    h.reg.loops[f"{SM}:SnapshotManager.delete_snapshot"] = {"*": LoopSpec(invariant=inv, havoc=havoc, name="find", skip=["snapshot_to_remove", "i", "snapshot"])}
+    W.assume_wf(st0)
+    out, val = h.run(f"{SM}:SnapshotManager.delete_snapshot", [sm, target])
+    W.assume_wf(st0)
+    h.ensure("DELETE:never-raises-by-itself", out == "ok", detail=repr(val) if out != "ok" else "")
+    if out != "ok":
+        return
+    sel = z3.Select
+    present = sel(st0["smem"], target.z)
+    if not commits:
+        h.ensure("DELETE:no-commit-only-for-an-unknown-id(returns-False)", z3.And(z3.Not(present), z3.BoolVal(val is False)))
+        return
+    h.ensure("DELETE:commit-only-for-a-retained-id(returns-True)", z3.And(present, z3.BoolVal(val is True and len(commits) == 1)))
+    base, new = commits[0]
+    h.ensure("DELETE:committed-against-the-base-it-read,with-a-separate-copy", base is md.obj and new is not md.obj)
+    st_b = state_of(c, md.obj)
+    h.ensure("DELETE:the-base-object-is-not-mutated",
+             z3.And(st_b["pn"] == st0["pn"], st_b["pv"] == st0["pv"], sel(st_b["smem"], W.S[0]) == sel(st0["smem"], W.S[0]),
+                    st_b["cur"][0] == st0["cur"][0], st_b["cur"][1] == st0["cur"][1]))
+    st1 = state_of(c, new)
+    cn, cv = st0["cur"]
+    was_cur = z3.And(z3.Not(cn), cv == target.z)
+    n1, v1 = st1["cur"]
+    h.ensure("DELETE:current-untouched-unless-it-was-the-deleted-one", z3.Implies(z3.Not(was_cur), z3.And(n1 == cn, z3.Implies(z3.Not(cn), v1 == cv))))
+    v = W.S[0]
+    h.ensure("REPOINT-CUR:deleting-the-current-snapshot-repoints-to-the-most-recently-committed-survivor",
+             z3.Implies(was_cur, z3.And(z3.Implies(sel(st1["smem"], v), z3.And(z3.Not(n1), sel(st1["spos"], v) <= sel(st1["spos"], v1))),
+                                        z3.Or(n1, sel(st1["smem"], v1)))))
+    shrink_post(h, W, st0, st1, lambda x: x != target.z, "DELETE")
+
+
+
+# =================================================================================== create_snapshot
+def shrink_contract(W: World, log, what):
+    """callee contract of a WF-preserving shrinking mutator (proved for the expire mutator by unit WF-PRESERVE/expire-mutator and
+    for _apply_retention by WF-PRESERVE/_apply_retention): drops some snapshots but never the current one, keeps the order,
+    filters the log to the survivors, repoints parents to retained true ancestors, touches nothing else."""
+    def contract(I, fv, args, kwargs):
+        c = I.ctx
+        m = args[-1]
+        st = state_of(c, m)
+        if not c.flip(f"{what}-drops-something"):
+            log.append((what, None))
+            return None
+        keep = c.fresh(f"{what}_keeps", z3.ArraySort(INT, z3.BoolSort()))
+        cn, cv = st["cur"]
+        c.assume(z3.Implies(z3.Not(cn), z3.Select(keep, cv)))
+        a = c.fresh_int("bv")
+        sn, lg = st["snaps"], st["log"]
+        mem1 = z3.Lambda([a], z3.And(z3.Select(st["smem"], a), z3.Select(keep, a)))
+        lmem1 = z3.Lambda([a], z3.And(z3.Select(st["lmem"], a), z3.Select(keep, z3.Select(st["lsid"], a))))
+        m.fields["snapshots"] = F.mk_reflist(c, st["cs"], mem1, sn.fields["dom"], None, label=f"{what}(snapshots)")
+        m.fields["snapshot_log"] = F.mk_reflist(c, st["cl"], lmem1, lg.fields["dom"], None, label=f"{what}(log)")
+        arrs = c.ghost["heap"]
+        pn1, pv1 = c.fresh("parent_none_after", st["pn"].sort()), c.fresh("parent_after", st["pv"].sort())
+        arrs[(st["cs"], "parent_snapshot_id", "none")], arrs[(st["cs"], "parent_snapshot_id")] = pn1, pv1
+        for t in list(F._terms(c, "Snapshot")):
+            n, v = z3.Select(pn1, t), z3.Select(pv1, t)
+            c.assume(z3.Implies(z3.Select(mem1, t), z3.Or(n, v == -1, z3.And(z3.Select(mem1, v), W.G(t, v)))))
+        log.append((what, keep))
+        return None
+    return contract
+
+
+def h_create_snapshot_wf(h: H):
+    c = h.ctx
+    install(h)
+    misc.install_clock(h.reg, c)
+    misc.install_uuid(h.reg, c)
+    W = World(h)
+    md = MD(h, "base")
+    st0 = state_of(c, md.obj)
+    W.know(st0)
+    mm = h.obj("MetadataManager")
+    sm = h.obj("SnapshotManager", metadata_manager=mm)
+    sel = z3.Select
+    sid = h.int("new_snapshot_id")
+    F.know(c, st0["cs"], sid.z)
+    h.assume(z3.Not(sel(st0["smem"], sid.z)), "A-uuid: the new snapshot id is not the id of a retained snapshot")
+    h.assume(sid.z != -1)
+    cn, cv = st0["cur"]
+    # call-site precondition (Transaction._commit_file_ops, proved there as DERIVE): parent = base.current or -1, sequence number = base.last+1
+    parent = SInt(z3.If(cn, z3.IntVal(-1), cv))
+    seq = SInt(st0["lsn"] + 1) if c.flip("sequence-number-given") else None
+    shr, commits = [], []
+    mut = None
+    if c.flip("has-mutator"):
+        mut = TheoryObj("mutator")
+        h.reg.theory_methods[("mutator", "__call__")] = lambda I, o, a, k: shrink_contract(W, shr, "mutator")(I, None, a, k)
+    h.reg.contracts[f"{SM}:SnapshotManager._apply_retention"] = shrink_contract(W, shr, "retention")
+    h.reg.contracts[f"{MM}:MetadataManager.refresh"] = lambda I, fv, a, k: md.obj
+
+    def commit(I, fv, args, kwargs):
+        commits.append((args[1], args[2]))
+        return None
+    h.reg.contracts[f"{MM}:MetadataManager.commit"] = commit
+    W.assume_wf(st0)
+    c.assume(z3.Implies(z3.Not(cn), W.G(sid.z, cv)), "ghost: TrueAncestor contains the commit-time parent link of the snapshot being created")
+    for t in W.S:
+        c.assume(z3.Implies(z3.And(z3.Not(cn), W.G(cv, t)), W.G(sid.z, t)), "ghost: TrueAncestor is transitive")
+    out, val = h.run(f"{SM}:SnapshotManager.create_snapshot", [sm, SStr(c.fresh_str("manifest_list_path"))],
+                     {"operation": "append", "parent_snapshot_id": parent, "base_metadata": md.obj, "snapshot_id": sid,
+                      "metadata_mutator": mut, "sequence_number": seq})
+    W.assume_wf(st0)
+    h.ensure("CREATE:never-raises-by-itself", out == "ok", detail=repr(val) if out != "ok" else "")
+    if out != "ok":
+        return
+    h.ensure("CREATE:exactly-one-commit-of-(base,separate-copy)", len(commits) == 1 and commits[0][0] is md.obj and commits[0][1] is not md.obj)
+    if len(commits) != 1:
+        return
+    new = commits[0][1]
+    st_b = state_of(c, md.obj)
+    h.ensure("CREATE:the-base-object-is-not-mutated",
+             z3.And(st_b["pn"] == st0["pn"], st_b["pv"] == st0["pv"], sel(st_b["smem"], W.S[0]) == sel(st0["smem"], W.S[0]),
+                    sel(st_b["lmem"], W.L[0]) == sel(st0["lmem"], W.L[0]), st_b["lsn"] == st0["lsn"]))
+    st1 = state_of(c, new)
+    apps = [a for a in c.ghost.get("forest_appends", [])]
+    log_apps = [a for a in apps if a["list"].fields["cls"].startswith("HistoryEntry")]
+    h.ensure("CREATE:one-snapshot-and-one-log-entry-appended", len(apps) == 2 and len(log_apps) == 1)
+    if len(log_apps) != 1:
+        return
+    new_entry = log_apps[0]["addr"]
+    entry1 = lambda x: z3.If(x == sid.z, new_entry, W.entry0(x))
+    n1, v1 = st1["cur"]
+    h.ensure("CREATE:the-new-snapshot-becomes-current-and-is-retained", z3.And(z3.Not(n1), v1 == sid.z, sel(st1["smem"], sid.z)))
+    h.ensure("CREATE:last_sequence_number-never-decreases-and-covers-the-new-snapshot",
+             z3.And(st1["lsn"] >= st0["lsn"], st1["lsn"] >= sel(st1["seq"], sid.z)))
+    v = W.S[0]
+    h.ensure("CREATE:new-snapshot-is-last-in-commit-order", z3.Implies(z3.And(sel(st1["smem"], v), v != sid.z), sel(st1["spos"], v) < sel(st1["spos"], sid.z)))
+    h.ensure("CREATE:sequence-number-above-every-retained-one", z3.Implies(z3.And(sel(st1["smem"], v), v != sid.z), sel(st1["seq"], v) < sel(st1["seq"], sid.z)))
+    h.ensure("CREATE:timestamp-not-older-than-any-retained-one(TS-MONO)", z3.Implies(z3.And(sel(st0["smem"], v), v != sid.z), sel(st0["ts"], v) <= sel(st1["ts"], sid.z)))
+    h.ensure("CREATE:only-adds-the-new-snapshot(never-invents-others)", z3.Implies(z3.And(sel(st1["smem"], v), v != sid.z), sel(st0["smem"], v)))
+    h.ensure("CREATE:without-mutator/retention-every-old-snapshot-is-kept",
+             z3.BoolVal(True) if any(k is not None for _w, k in shr) else z3.Implies(sel(st0["smem"], v), sel(st1["smem"], v)))
+    h.ensure("CREATE:existing-snapshots-keep-timestamp-and-sequence-number",
+             z3.Implies(z3.And(sel(st1["smem"], v), v != sid.z), z3.And(sel(st1["ts"], v) == sel(st0["ts"], v), sel(st1["seq"], v) == sel(st0["seq"], v))))
+    W.ensure_wf(st1, entry1, prefix="CREATE/")
+
+
+
+def _replay_wf(ob):
+    """bounded stand-in / witness replay: operation histories on the real code (append, multi-op transaction, file delete,
+    expire, delete-snapshot, retention property, stepping clock), independent WF checker on the metadata after every step"""
+    return '''
+import sys, os, tempfile, shutil, itertools, random, time
+from datashard import create_table, load_table
+from datashard.data_structures import Schema
+import datashard.snapshot_manager as smod
+import datetime as _d
+real = _d.datetime
+class FakeDT(real):
+    now_s = 5000.0
+    @classmethod
+    def now(cls, tz=None): return real.fromtimestamp(cls.now_s)
+bad = []
+sch = Schema(schema_id=1, fields=[{"id": 1, "name": "a", "type": "long", "required": False}])
+def check(m, truth, prev_lsn, tag):
+    ids = [s.snapshot_id for s in m.snapshots]
+    out = []
+    if len(set(ids)) != len(ids): out.append("duplicate ids")
+    if m.snapshots and m.current_snapshot_id not in ids: out.append("current not retained")
+    if not m.snapshots and m.current_snapshot_id not in (None, -1): out.append("current set on empty table")
+    for s in m.snapshots:
+        p = s.parent_snapshot_id
+        if p in (None, -1): continue
+        if p not in ids: out.append(("dangling parent", s.snapshot_id % 1000, p % 1000))
+        elif p not in truth.get(s.snapshot_id, set()): out.append(("parent is not a true ancestor", s.snapshot_id % 1000))
+    order = {sid: k for k, sid in enumerate(COMMITS)}
+    byc = sorted(m.snapshots, key=lambda s: order[s.snapshot_id])
+    seqs = [s.sequence_number for s in byc]
+    if any(a >= b for a, b in zip(seqs, seqs[1:])): out.append(("sequence numbers not increasing in commit order", seqs))
+    if [s.snapshot_id for s in m.snapshots] != [s.snapshot_id for s in byc]: out.append("snapshot list not in commit order")
+    if any(s.sequence_number > m.last_sequence_number for s in m.snapshots): out.append("seq > last_sequence_number")
+    if m.last_sequence_number < prev_lsn: out.append("last_sequence_number decreased")
+    tss = [s.timestamp_ms for s in byc]
+    if any(a > b for a, b in zip(tss, tss[1:])): out.append(("timestamps decrease in commit order", tss))
+    logids = [e.snapshot_id for e in m.snapshot_log]
+    if any(i not in ids for i in logids): out.append("log names an expired snapshot")
+    if [order[i] for i in logids] != sorted(order[i] for i in logids): out.append("log not in commit order")
+    if set(ids) - set(logids): out.append("retained snapshot without log entry")
+    for o in out: bad.append((tag, o))
+OPS = ["append", "append2", "delete_file", "expire_old", "expire_all", "delete_current", "delete_oldest", "retention2"]
+def run(history, clock):
+    global COMMITS
+    COMMITS = []
+    root = tempfile.mkdtemp(prefix="pyvc_replay_")
+    truth = {}
+    try:
+        t = create_table(os.path.join(root, "t"), schema=sch)
+        smod.datetime = FakeDT
+        FakeDT.now_s = 5000.0
+        lsn = 0
+        for k, (op, dt) in enumerate(zip(history, clock)):
+            FakeDT.now_s += dt
+            before = t.metadata_manager.refresh()
+            ids_before = {s.snapshot_id for s in before.snapshots}
+            try:
+                if op == "append": t.append_records([{"a": k}])
+                elif op == "append2":
+                    with t.new_transaction() as tx:
+                        tx.append_data([{"a": k}]); tx.append_data([{"a": k + 100}]); tx.commit()
+                elif op == "delete_file":
+                    fs = sorted(t.storage.list_files("data"))
+                    live = [f.file_path for f in t._get_all_data_files()] if hasattr(t, "_get_all_data_files") else []
+                    if live:
+                        with t.new_transaction() as tx:
+                            tx.delete_files([live[0]]); tx.commit()
+                elif op == "expire_old":
+                    with t.new_transaction() as tx:
+                        tx.expire_snapshots(int((FakeDT.now_s - 50) * 1000)); tx.commit()
+                elif op == "expire_all":
+                    with t.new_transaction() as tx:
+                        tx.expire_snapshots(int((FakeDT.now_s + 10_000) * 1000)); tx.commit()
+                elif op == "delete_current":
+                    if before.current_snapshot_id not in (None, -1): t.snapshot_manager.delete_snapshot(before.current_snapshot_id)
+                elif op == "delete_oldest":
+                    if before.snapshots: t.snapshot_manager.delete_snapshot(before.snapshots[0].snapshot_id)
+                elif op == "retention2":
+                    b = t.metadata_manager.refresh(); b.properties["datashard.snapshot.retention-count"] = "2"
+                    t.metadata_manager.commit(t.metadata_manager.refresh(), b)
+            except Exception as e:
+                bad.append((history, k, op, "raised " + repr(e)[:100])); break
+            m = t.metadata_manager.refresh()
+            for s in m.snapshots:
+                if s.snapshot_id not in ids_before and s.snapshot_id not in truth:
+                    COMMITS.append(s.snapshot_id)
+                    p = s.parent_snapshot_id
+                    truth[s.snapshot_id] = ({p} | truth.get(p, set())) if p not in (None, -1) else set()
+            check(m, truth, lsn, (tuple(history[:k + 1]), tuple(clock[:k + 1])))
+            lsn = m.last_sequence_number
+            if len(bad) > 5: return
+    finally:
+        smod.datetime = real
+        shutil.rmtree(root, ignore_errors=True)
+rng = random.Random(7)
+n = 0
+hists = [h for h in itertools.product(OPS, repeat=3)]
+rng.shuffle(hists)
+for hist in hists[:60] + [tuple(rng.choice(OPS) for _ in range(6)) for _ in range(25)]:
+    full = ("append", "append") + hist
+    clock = [rng.choice([10.0, 0.0, -100.0, 30.0]) for _ in full]
+    run(full, clock); n += 1
+    if len(bad) > 5: break
+print("replay WF histories (bounded):", n, "histories ->", bad[:3] or "ok")
+sys.exit(1 if bad else 0)
+'''
+
+
 UNITS = {
     "REPOINT/repoint_parents_to_surviving_ancestors": (h_repoint, [f"{SM}:repoint_parents_to_surviving_ancestors"], _replay_repoint),
+    "WF-PRESERVE/_apply_retention": (h_apply_retention, [f"{SM}:SnapshotManager._apply_retention"], _replay_wf),
+    "WF-PRESERVE/expire-mutator": (h_expire_mutator, [f"{TX}:Transaction._make_expire_mutator"], _replay_wf),
+    "WF-PRESERVE/delete_snapshot": (h_delete_snapshot_wf, [f"{SM}:SnapshotManager.delete_snapshot"], _replay_wf),
+    "WF-PRESERVE/create_snapshot": (h_create_snapshot_wf, [f"{SM}:SnapshotManager.create_snapshot"], _replay_wf),
 }
 UNITS_C09 = {
     "REPOINT-CUR/_most_recent_snapshot_id": (h_most_recent, [f"{SM}:SnapshotManager._most_recent_snapshot_id"], _replay_lookup),
